@@ -404,6 +404,61 @@ func genLo(r *rand.Rand) []string {
 	return o
 }
 
+func genIv(r *rand.Rand) []string {
+	var o []string
+	const ms = int64(1000000)
+	now := int64(1700000000)*1000000000 + r.Int63n(1000)*ms
+	cfgs := []int64{1 * ms, 400 * ms, 500 * ms, 500*ms + 1, 600 * ms, 2000 * ms, 10000 * ms, 3600000 * ms}
+	cfg := cfgs[r.Intn(len(cfgs))]
+	lo := int64(500 * ms)
+	if cfg < lo {
+		lo = cfg
+	}
+	ada := cfg
+	switch r.Intn(5) {
+	case 0:
+		ada = lo
+	case 1:
+		ada = lo + r.Int63n(cfg-lo+1)
+	case 2:
+		ada = cfg - r.Int63n(3)
+		if ada < lo {
+			ada = lo
+		}
+	}
+	if r.Intn(25) == 0 {
+		ada = cfg + r.Int63n(1000*ms) // outside the invariant: differential only
+	}
+	lastShort := now/ms - []int64{0, 1000, 299999, 300000, 300001, 3600000, 100000000}[r.Intn(7)]
+	dt := r.Int63n(4000) * 125 * ms // multiples of 1/8 s: the float computation is exact
+	if r.Intn(5) == 0 {
+		dt = r.Int63n(400000) * 125 * ms
+	}
+	req := []int64{0, 0, 1 * ms, ada - 1, ada, ada + 1, 600 * ms, 550 * ms, 100 * ms, ada - 100*ms, ada / 2, r.Int63n(cfg + 1)}[r.Intn(12)]
+	if req < 0 {
+		req = 0
+	}
+	o = append(o, ln("iv", "next", i(cfg), i(ada), i(lastShort), i(now-dt), strconv.Itoa(r.Intn(5)), i(now), i(req)))
+	nw := []int64{cfg, 0, -1, 1, ada, ada - 1, ada + 1, 400 * ms, 500 * ms, 700 * ms, cfgs[r.Intn(len(cfgs))]}[r.Intn(11)]
+	o = append(o, ln("iv", "set", i(cfg), i(ada), i(nw)))
+	cur := uint64(now/ms) << 18
+	stal := []int64{0, 1, ada / ms, ada/ms + 1, ada/ms - 1, ada/ms + 200, ada/ms + 201, -5, r.Int63n(20000)}[r.Intn(9)]
+	read := uint64(now/ms-stal)<<18 + uint64(r.Intn(100))
+	o = append(o, ln("iv", "adj", i(cfg), i(ada), i(lastShort+[]int64{0, 5000, -5}[r.Intn(3)]), u(read), u(cur), i(now)))
+	return o
+}
+
+func genSl(r *rand.Rand) string {
+	physOff := []int64{0, 1, 999, 1000, 5000, 3600000, -1000}[r.Intn(7)] + r.Int63n(3)
+	arrOff := []int64{0, 1000, 999999, 1000000, 5000000, 1000000000, 10000000000, 3600000000000}[r.Intn(8)] + r.Int63n(1000)
+	prev := []uint64{0, 0, 1, 2, 10, 3600, 1700000000 - 1, 1700000000, 1800000000, uint64(r.Intn(100000))}[r.Intn(10)]
+	ps := u(prev)
+	if r.Intn(4) == 0 {
+		ps = []string{"s-1", "s0", "s1", "s-2"}[r.Intn(4)]
+	}
+	return ln("sl", i(physOff), strconv.FormatInt(r.Int63n(1<<18), 16), i(arrOff), ps)
+}
+
 func generate(seed int64, thorough bool) []string {
 	r := rand.New(rand.NewSource(seed*7919 + 13))
 	mul := 1
@@ -431,6 +486,10 @@ func generate(seed int64, thorough bool) []string {
 	}
 	for c := 0; c < 20*mul && !conc; c++ {
 		o = append(o, genLo(r)...)
+	}
+	for c := 0; c < 300*mul && !conc; c++ {
+		o = append(o, genIv(r)...)
+		o = append(o, genSl(r))
 	}
 	o = append(o, ln("mo", "200"))
 	nb := 2
